@@ -18,6 +18,7 @@ R4  derived field: the cached row count is invalidated by every mutator of the
 import ast
 
 from ..astutil import attr_writes, call_name, calls, dotted, param_names, stmts, walk_local
+from ..cfg import CFG
 from ..core import AnalysisError, Mutant
 from ..program import ClassIndex
 
@@ -585,6 +586,19 @@ def run(ctx):
             resets = owner.name == cls and any(
                 a == "_row_count" for a, st, t in attr_writes(f)
             )
+            if resets:
+                # ... on every path to the store: the reset must dominate the delegating call
+                g_ = CFG(f, lambda st_: isinstance(st_, ast.Raise))
+                dom_ = g_.dominators()
+                rs = [n_.id for n_ in g_.nodes if n_.kind == "stmt" and isinstance(n_.ast, ast.Assign)
+                      and any(isinstance(t_, ast.Attribute) and t_.attr == "_row_count" for t_ in n_.ast.targets)]
+                stores = [n_.id for n_ in g_.nodes if n_.kind == "stmt" and n_.ast is not None and any(
+                    isinstance(c_, ast.Call) and (call_name(c_) or "").endswith("__setitem__") for c_ in ast.walk(n_.ast))
+                    or (n_.kind == "stmt" and isinstance(n_.ast, ast.Assign) and any(
+                        isinstance(t_, ast.Subscript) and isinstance(t_.value, ast.Attribute) for t_ in n_.ast.targets))]
+                ctx.need(stores, f"{cls}.{d}: the statement that stores the column")
+                resets = all(any(r in dom_.get(s_, set()) for r in rs) or g_.path(s_, g_.exit.id, blocked=set(rs)) is None
+                             for s_ in stores)
             ctx.ob(
                 "R4.row-count-invalidated", rel, f"{cls}.{d}", "self._row_count reset",
                 resets,
@@ -603,6 +617,7 @@ def run(ctx):
 
 
 MUTANTS = [
+    Mutant("row-count-reset-conditional", BCIF, "        # The cached row count may become invalid by the new column\n        self._row_count = None\n        super().__setitem__(key, element)", "            self._row_count = None\n        super().__setitem__(key, element)", "R4.row-count-invalidated"),
     Mutant("escape-hash-dropped", CIF,
            'elif value[0] in ("_", "#", ";"):', 'elif value[0] in ("_", ";"):',
            "R1.line-start-quoted"),
